@@ -149,7 +149,29 @@ fn gen_cycle(r: &mut Rng, names: &[&str], salt: u64) -> Vec<String> {
     let p = format!("/{}", r.pick(names));
     let n1 = *r.pick(SIZES);
     let n2 = *r.pick(SIZES);
-    match r.below(8) {
+    match r.below(10) {
+        // (8, 9: more entries per repetition than one directory sector holds — 4 in version 3, 32 in version 4 —
+        // so released directory slots of *earlier* directory sectors must be found again)
+        8 => {
+            let k = if r.chance(1, 3) { 33 + r.below(8) as usize } else { 5 + r.below(8) as usize };
+            let mut v = vec![format!("mkdir {}", enc(&p))];
+            for i in 0..k {
+                v.push(format!("put {} {}", enc(&format!("{}/c{}", p, i)), hex(&pattern(if i % 3 == 0 { 0 } else { 20 }, salt + i as u64))));
+            }
+            v.push(format!("rmall {}", enc(&p)));
+            v
+        }
+        9 => {
+            let k = if r.chance(1, 3) { 33 + r.below(8) as usize } else { 5 + r.below(8) as usize };
+            let mut v = Vec::new();
+            for i in 0..k {
+                v.push(format!("put {} {}", enc(&format!("{}q{}", p, i)), hex(&pattern(if i % 2 == 0 { 0 } else { 70 }, salt + i as u64))));
+            }
+            for i in 0..k {
+                v.push(format!("rm {}", enc(&format!("{}q{}", p, i))));
+            }
+            v
+        }
         // (6, 7: the cycle includes a reopen — the state `open` rebuilds must reuse the same space)
         6 => vec![format!("put {} {}", enc(&p), hex(&pattern(n1, salt))), format!("rm {}", enc(&p)), format!("reopen {}", if r.chance(1, 2) { "strict" } else { "permissive" })],
         7 => vec![format!("put {} {}", enc(&p), hex(&pattern(n1, salt))), "reopen permissive".to_string(), format!("put {} {}", enc(&p), hex(&pattern(n2, salt + 1))), format!("rm {}", enc(&p))],
